@@ -11,6 +11,24 @@ package profile
 //@ spec func normProv(n string) string = purecall("normProv", "string", n)
 //@ spec func oaiDeclared(n string) bool = purecall("oaiDeclared", "bool", n)
 //@ ghost field forName string
+// loaderHas(n) / cfgOf(n): whether the loader knows a profile under the name n, and that profile's configuration (the
+// YAML side, fixed after start-up); anthOf(n): what "the profile of endpoint type n says about native Anthropic
+// support" means (C14) - nil when there is no such profile, no configuration or no such section
+//@ spec func loaderHas(n string) bool = purecall("loaderHas", "bool", n)
+//@ spec func cfgOf(n string) *domain.ProfileConfig = purecall("cfgOf", "*domain.ProfileConfig", n)
+//@ spec func anthOf(n string) *domain.AnthropicSupportConfig = ite(loaderHas(n) && cfgOf(n) != nil, cfgOf(n).API.AnthropicSupport, nil)
+//@ func (l *ProfileLoader) GetProfile
+//@   property C14
+//@   trusted a map lookup under the loader's lock; defines loaderHas and forName
+//@   modifies ghost forName
+//@   ensures res1 == loaderHas(name) && (res1 ==> res0 != nil && ghost(res0).forName == name)
+// (the same postcondition as the ProfileLookup interface contract the handlers rely on; f.loader is set by NewFactory)
+//@ func (f *Factory) GetAnthropicSupport
+//@   property C14
+//@   safety
+//@   requires f != nil && f.loader != nil
+//@   modifies ghost forName
+//@   ensures res == anthOf(endpointType)
 //@ interface ProfileFactory.NormalizeProviderName(providerName)
 //@   ensures providerName != "" ==> res != ""
 //@   ensures res == normProv(providerName)
